@@ -28,6 +28,12 @@ CHECKS.update({
         text="TLC explores 4 document shapes (array of scalars in typed containers, array of objects, byte containers as bin and as int array, scalars in an array) with up to 2/3 positions replaced by 8 kinds of offending values under both Skip policy combinations, checks on the abstract semantics that no error is raised and neighbours keep their events, and exports each state; the real MsgPack archive executes them from memory and streams at window 8 and 256 and must produce exactly the prescribed events (bool results, targets incl. prior values, sentinel).",
         note="Trusted: TLC, harness, LoadScript.tla. MessagePack archive only so far. Required()-validator reporting of skipped fields is covered through the isLoaded flag each request logs.",
         design_ref="DESIGN.md#c05"),
+    "C06": dict(
+        category="model_checking",
+        technique="TLA+ typed-tree encoder spec (SaveScript: abstract document A, compact encoding, deviation-parameterised M) model-checked against the MessagePack spec; TLC-generated save scripts executed by the real writer (memory and stream); TLC is the independent decoder of the produced bytes (trace validation)",
+        text="MC_SaveScript enumerates typed values of every integer width at all format thresholds, floats, strings/bin/arrays at header thresholds, time points/durations incl. pre-epoch sub-second, containers, typed-key maps and objects growing member by member, and checks on the spec itself that the typed encoder equals Compact(document), decodes back and that map headers equal the members written. Every state is saved by the real MsgPack archive to memory and to a stream; TLC decodes the bytes with the reference decoder and decides: exactly one well-formed object, same data, length of the most compact encoding, memory == stream.",
+        note="Trusted: TLC, harness (constructs C++ values from spec-chosen tuples), MsgPackFormat.tla. Known findings: signed positive values not compact in three ranges; timestamp-96 field order. Bounds: corpus values (thresholds), objects <= 2 (quick) / 4 (thorough) extra members.",
+        design_ref="DESIGN.md#c06"),
     "C07": dict(
         category="model_checking",
         technique="TLA+ reference MessagePack decoder/encoder (MsgPackFormat) model-checked for self-consistency; TLC enumerates corpus values x legal width policies x typed targets x truncations and single-byte corruptions with the outcome the reference decoder + typed-load semantics prescribe; replayed through both readers",
